@@ -214,6 +214,7 @@ def deductive(rep: Report, tier):
             return [("returns", False)]
         (i, j) = ix.fresh_indices(ctx, [n, n], "h")
         ix.instantiate_bounds(ctx, (i, j))
+        ix.instantiate_bounds(ctx, (j, i))
         ix.instantiate_anys(ctx, (i, j))
         d = A.at(i, j) - A.at(j, i).conj()
         bnds = [b for b in ctx.ghost.get("bounds", []) if b[3]]
